@@ -5,6 +5,7 @@ the names of the Renamed nodes on the stack where the error was created, and it 
 root) and by C18Trunc (spec/Props.tla): for a canonical encoding truncated at every offset j, the path of the resulting error names
 the members whose extent in the successful behaviour contains j.
 """
+import itertools
 from .. import ast as A, gen, values as V, campaign
 from . import common
 
@@ -82,6 +83,39 @@ def run(ctx):
             camp.sh.maybe_flush()
             if i < 3:
                 ctx.sample({"program": prog})
+        # recursive formats (LazyBound): the path names every level the failure lies below, however deep
+        from .. import universes as U
+        for prog, kw, vals in U.recursive_programs():
+            con = campaign.realizable(prog)
+            if con is None:
+                continue
+            for v in vals:
+                ib, b = camp.build(prog, con, v, b"", kw)
+                if not b["res"]["ok"]:
+                    continue
+                out = bytes(b["res"]["v"]["b"])
+                ifull, full = camp.parse(prog, con, out, 0, kw)
+                if not full["res"]["ok"]:
+                    continue
+                for j in range(len(out)):
+                    ip, p = camp.parse(prog, con, out[:j], 0, kw, tag="trunc")
+                    camp.sh.session("C18.trunc", [ifull, ip])
+                    nt += 1
+            # a value that cannot be built, at every depth
+            def spoil(v, depth):
+                if isinstance(v, dict):
+                    for k in v:
+                        if isinstance(v[k], dict):
+                            yield from ({**v, k: x} for x in spoil(v[k], depth + 1))
+                        elif isinstance(v[k], list) and v[k] and isinstance(v[k][0], dict):
+                            yield from ({**v, k: [x] + v[k][1:]} for x in spoil(v[k][0], depth + 1))
+                        else:
+                            yield {**v, k: "wrong-type"}
+                            yield {kk: vv for kk, vv in v.items() if kk != k}
+            for v in vals:
+                for bad in itertools.islice(spoil(v, 0), 40):
+                    camp.build(prog, con, bad, b"", kw, tag="unbuildable-deep")
+            camp.sh.maybe_flush()
         vs = camp.validate()
         campaign.judge(ctx, camp, vs, conformance=None, clauses=("C18.trunc",))
         cvs = campaign.validate_cam(camp)
